@@ -189,10 +189,13 @@ class SymMem:
         self.reads.append(T(a))
         if not isinstance(a, SymInt) and a in self.cache:
             return self.cache[a]
-        v = z3.simplify(z3.Select(self.arr, T(a)))
+        raw = z3.Select(self.arr, T(a))
+        v = z3.simplify(raw)
         if z3.is_bv_value(v):
             return v.as_long()
-        return SymInt(z3.ZeroExt(W - 8, v), 0, 255)
+        # keep the select un-simplified: pushing it through the store chain would destroy the
+        # syntactic shape that lets a proved array-equality lemma close the goal by congruence
+        return SymInt(z3.ZeroExt(W - 8, raw), 0, 255)
 
     def write(self, a, v):
         vt = z3.Extract(7, 0, T(v))
